@@ -5,7 +5,10 @@
    *features* (short fixed builder snippets).  All builders share the package-level objects
    of the library: singleton identifier nodes (true, false, nil, _, append, len, cap, new,
    make, iota), the helper statements of the range-over-enumerator lowering, the constraint
-   terms and shared type objects.  Reads[f] is the set of shared objects feature f touches
+   terms and shared type objects.  A package may customise its *own* builtin-type-info table
+   (feature btiadd: Package.BuiltinTI(T).AddMethods) and may be configured with its own big-number
+   types (every builder is): neither may be visible to another package (feature btiuse looks the
+   added method up and must not find it).  Reads[f] is the set of shared objects feature f touches
    (read from the code); Writes[f] must be empty for the property to hold: the mutation
    sites of the library (CheckParenExpr on a selector, setDenoted, overload selector rewrite,
    import renaming) only ever receive nodes a builder created itself.
@@ -20,15 +23,15 @@
    (sabotage: TLC must refute both invariants). *)
 EXTENDS Integers, Sequences, FiniteSets, TLC, Json
 CONSTANTS Builders, ProgLen, Mutating
-Features == {"nil", "bool", "builtins", "iota", "blank", "rangeudt", "operators", "import", "paren", "btimethod", "closure", "lits"}
-FeatSeq == <<"nil", "bool", "builtins", "iota", "blank", "rangeudt", "operators", "import", "paren", "btimethod", "closure", "lits">>
+Features == {"nil", "bool", "builtins", "iota", "blank", "rangeudt", "operators", "import", "paren", "btimethod", "closure", "lits", "btiadd", "btiuse"}
+FeatSeq == <<"nil", "bool", "builtins", "iota", "blank", "rangeudt", "operators", "import", "paren", "btimethod", "closure", "lits", "btiadd", "btiuse">>
 Idx(f) == CHOOSE i \in 1..Len(FeatSeq) : FeatSeq[i] = f
 Reads == [f \in Features |->
   CASE f = "nil" -> {"identNil"} [] f = "bool" -> {"identTrue", "identFalse"}
     [] f = "builtins" -> {"identAppend", "identLen", "identCap", "identNew", "identMake"}
     [] f = "iota" -> {"identIota"} [] f = "blank" -> {"underscore"}
     [] f = "rangeudt" -> {"identXgoOk", "identXgoIt", "stmtXGoOkDecl", "stmtBreakIfNotXGoOk", "exprIterNext"}
-    [] f = "operators" -> {"constraints"} [] f = "btimethod" -> {"tyChan", "tySlice"}
+    [] f = "operators" -> {"constraints"} [] f \in {"btimethod", "btiadd", "btiuse"} -> {"tyChan", "tySlice"}
     [] OTHER -> {}]
 Writes == [f \in Features |-> IF f \in Mutating THEN Reads[f] \cup {"identNil"} ELSE {}]
 VARIABLES prog, pc, acc
